@@ -95,7 +95,18 @@ func newEvent(eventType string, ts time.Time, payload interface{}) (Event, error
 	if err != nil {
 		return Event{}, err
 	}
-	return Event{Type: eventType, TS: formatTime(ts), Data: data}, nil
+	event := Event{Type: eventType, TS: formatTime(ts), Data: data}
+	// The event becomes one line of the log. A line longer than the reader's
+	// limit would be written without complaint and then make every later
+	// command fail, so it is refused here, before anything is recorded.
+	line, err := json.Marshal(event)
+	if err != nil {
+		return Event{}, err
+	}
+	if len(line)+1 > maxEventLineBytes {
+		return Event{}, fmt.Errorf("%s event is too large to record: %d bytes as a log line, the limit is %d", eventType, len(line)+1, maxEventLineBytes)
+	}
+	return event, nil
 }
 
 func newShortID(existing map[string]*Task, pruned map[string]TombstoneInfo) (string, error) {
